@@ -15,7 +15,7 @@ open LV.PoolLts
 
 /-- The idle set stays within `max_size` under every order of transitions. -/
 theorem idle_within_max (hfix : capFix = true) (isAsync : Bool) (maxSize minIdle sends nSenders : Nat)
-    (plans : List (Option Nat × Option Nat)) (es : List Ev) (s : St)
+    (plans : List Plan) (es : List Ev) (s : St)
     (hr : run (init isAsync maxSize minIdle sends nSenders plans) es = some s) :
     ∀ l, s.idle = some l → l.length ≤ s.maxSize :=
   bound_run hfix es _ s (bound_init isAsync maxSize minIdle sends nSenders plans) hr
@@ -31,11 +31,20 @@ theorem dead_connection_not_reused (s : St) (i c : Nat) (rest : List (Nat × Boo
       (usePopped s i c rest).idle = some rest :=
   PoolLts.dead_connection_not_reused s i c rest hc hd
 
-/-- A popped connection that is alive is used only after the peer has seen (and answered) NOOP. -/
+/-- A popped connection is used for a transaction only if the probe succeeded, and then the peer has seen (and
+    answered in time, positively) a NOOP right before the transaction. -/
 theorem live_connection_probed_first (s : St) (i c : Nat) (rest : List (Nat × Bool))
-    (ha : (getConn s c).peerAlive = true) :
-    usePopped s i c rest = sendOn (updConn { s with idle := some rest } c fun _ => say (getConn s c) .noop) i c :=
+    (ha : (probe (getConn s c)).2 = true) :
+    usePopped s i c rest = sendOn (updConn { s with idle := some rest } c fun _ => (probe (getConn s c)).1) i c ∧
+      (probe (getConn s c)).1.hist = .noop :: (getConn s c).hist :=
   PoolLts.live_connection_probed_first s i c rest ha
+
+/-- A popped connection whose probe fails — peer gone, `421`, or no answer within the timeout — is closed; nothing is
+    sent on it and the sender is back at the top of the check-out loop. -/
+theorem failed_probe_closes (s : St) (i c : Nat) (rest : List (Nat × Bool)) (hc : c < s.conns.length)
+    (hf : (probe (getConn s c)).2 = false) :
+    (usePopped s i c rest).senders = s.senders ∧ (getConn (usePopped s i c rest) c).closed = true :=
+  PoolLts.failed_probe_closes s i c rest hc hf
 
 /-- A connection on which a command failed (`abort` ran) is closed, and `recycle` never parks a
     broken connection: `finishSend` does not even take the lock for it. -/
